@@ -181,6 +181,66 @@ def same_set_repr(a, b):
   return pa is not None and pa == pb and a != b
 
 
+def list_order_only(x, y):
+  """True if x and y differ only in the element order of encoded lists ['L', ...] (same elements)."""
+  if type(x) != type(y):
+    return False
+  if isinstance(x, list):
+    if x and y and x[0] == 'L' and y[0] == 'L' and all(isinstance(v, str) for v in x[1:] + y[1:]):
+      return sorted(x[1:]) == sorted(y[1:])
+    return len(x) == len(y) and all(list_order_only(a, b) for a, b in zip(x, y))
+  if isinstance(x, dict):
+    return set(x) == set(y) and all(list_order_only(x[k], y[k]) for k in x)
+  return x == y
+
+
+def choicelist_order(x, y):
+  """The differing cells are cells of ChoiceList columns, or cells of other columns that hold a copy of such a
+  cell's value (e.g. `$ref.Z`): usertypes.ChoiceList.do_convert turns a set into a tuple in iteration order."""
+  ta, tb = x.get('tables', {}), y.get('tables', {})
+  meta_t, meta_c = ta.get('_grist_Tables'), ta.get('_grist_Tables_column')
+  if not meta_t or not meta_c:
+    return False
+  tname = dict(zip(meta_t['ids'], meta_t['cols']['tableId']))
+  ctype = {(tname.get(p), c): t for p, c, t in zip(meta_c['cols']['parentId'], meta_c['cols']['colId'], meta_c['cols']['type'])}
+  pairs, others = set(), []
+  for t in ta:
+    if t not in tb or ta[t]['ids'] != tb[t]['ids']:
+      return False
+    for c, vals in ta[t]['cols'].items():
+      ov = tb[t]['cols'].get(c)
+      if vals == ov:
+        continue
+      if not isinstance(ov, list) or len(ov) != len(vals):
+        return False
+      for a, b in zip(vals, ov):
+        if a != b:
+          key = (json.dumps(a), json.dumps(b))
+          if ctype.get((t, c)) == 'ChoiceList':
+            pairs.add(key)
+          else:
+            others.append(key)
+  return bool(pairs) and all(k in pairs for k in others)
+
+
+def rename_table_order_only(x, y):
+  """Same documents, same actions as multisets; the replies differ only in the ORDER of their actions and a
+  RenameTable is among the displaced ones (useractions._updateColumnRecords iterates the SET rename_summary_tables)."""
+  if x.get('tables') != y.get('tables'):
+    return False
+  rx, ry = x.get('reply', {}), y.get('reply', {})
+  if 'error' in rx or 'error' in ry or rx.get('retValues') != ry.get('retValues'):
+    return False
+  ms = lambda l: sorted(json.dumps(a, sort_keys=True) for a in l)
+  for k in ('stored', 'undo', 'calc'):
+    if ms(rx.get(k, [])) != ms(ry.get(k, [])):
+      return False
+  if sorted(rx.get('direct', [])) != sorted(ry.get('direct', [])):
+    return False
+  moved = [a for a, b in zip(rx['stored'], ry['stored']) if a != b]
+  return any(a[0] == 'RenameTable' for a in moved)
+
+
 def first_difference(fa, fb):
   for i, (x, y) in enumerate(zip(fa, fb)):
     if x != y:
@@ -201,7 +261,7 @@ def describe(x, y):
   return '%s  vs  %s' % (json.dumps(x, default=repr)[:160], json.dumps(y, default=repr)[:160])
 
 
-def only_text_columns_differ(x, y):
+def only_text_columns_differ(x, y, typ='Text'):
   """Every cell that differs between the two documents lies in a column of type Text (usertypes.Text.do_convert
   stores str(value); the other two sites that store the text of a set were repaired by df84fa7)."""
   ta, tb = x.get('tables', {}), y.get('tables', {})
@@ -219,7 +279,7 @@ def only_text_columns_differ(x, y):
     for c, vals in ta[t]['cols'].items():
       if vals != tb[t]['cols'].get(c):
         found = True
-        if ctype.get((t, c)) != 'Text':
+        if ctype.get((t, c)) != typ:
           return False
   return found
 
@@ -234,6 +294,10 @@ def compare_full(hist, sa, sb):
   kind = 'cross-process-mismatch'
   if set_repr_only(x, y):
     kind = 'set_repr_in_text_column' if only_text_columns_differ(x, y) else 'set_repr_in_unmarshallable_value'
+  elif list_order_only(x, y) and choicelist_order(x, y):
+    kind = 'set_to_choicelist_order'
+  elif rename_table_order_only(x, y):
+    kind = 'action-order:rename-summary-tables'
   return i, kind, 'PYTHONHASHSEED=%s vs %s, bundle %d: %s' % (sa, sb, i, describe(x, y))
 
 
@@ -511,7 +575,12 @@ def search(ctx):
     if bad is None:
       continue
     s, level = bad
-    r = compare_full(hist, ref, s) if level == 'canonical' else None
+    r = None
+    if level == 'canonical':
+      for _attempt in range(3):       # orders that follow object addresses vary from run to run: try again
+        r = compare_full(hist, ref, s)
+        if r is not None:
+          break
     if r is None:
       if level == 'strict':
         # equal as values (==); only the key order inside a column-values dict differs, e.g.
@@ -522,7 +591,14 @@ def search(ctx):
         if note not in ctx.notes:
           ctx.notes.append(note)
       else:
-        ctx.broken('search:C30', 'digests differ but the full outputs do not (history %d, seeds %s/%s)' % (h, ref, s))
+        # a difference that three fresh pairs of processes do not show again: an order that follows object
+        # addresses (see C30-rename-summary-tables-set-order); the history is kept for inspection
+        ctx.bump('xproc:digest-mismatch-not-reproduced')
+        path = os.path.join(core.VERIF, 'work', ID, 'unreproduced_%d.json' % h)
+        with open(path, 'w') as fh:
+          json.dump({'history': hist, 'seeds': [ref, s]}, fh)
+        ctx.notes.append('a digest mismatch (history %d, seeds %s/%s) was not reproduced by three fresh pairs of '
+                         'processes; history saved in %s' % (h, ref, s, path))
       continue
     i, kind, what = r
     ctx.violation(kind, what, {'history': copy.deepcopy(hist[:i]), 'bundle': copy.deepcopy(hist[i]), 'seeds': [ref, s]})
